@@ -48,7 +48,7 @@ pub struct ConcDesc {
     pub schedule: Option<Vec<u8>>,
 }
 
-pub const FN_NAMES: [&str; 14] = ["a1", "s1", "o1", "r1", "e1", "l1", "l2", "c1", "h1", "re1", "fm", "sb1", "cx", "cs"];
+pub const FN_NAMES: [&str; 15] = ["a1", "s1", "o1", "r1", "e1", "l1", "l2", "c1", "h1", "re1", "fm", "sb1", "cx", "cs", "b1"];
 
 /// Context type of the second runtime: every call brings its own context.
 #[derive(Clone, Context)]
@@ -240,6 +240,14 @@ fn re1(x: u64) -> u64 {{
 filtermap fm(x: u64) {{
     if x > {p2} {{ accept x }} else {{ reject }}
 }}
+fn b1(a: String, x: u64) -> String {{
+    let u = a.to_uppercase().repeat(x % 3 + 1);
+    let parts = u.split("G");
+    let j = parts.join("-");
+    let t = j.replace("A", "aa").trim();
+    let n = t.chars().len();
+    t + ":" + x.to_string() + ":" + n.to_string() + ":" + CS.to_lowercase()
+}}
 fn sb1(a: String, x: u64) -> String {{
     let b = StringBuf.new();
     b.push_string(a);
@@ -305,7 +313,7 @@ fn load(pkg: &mut Package<NoCtx>, pkg2: &mut Package<Ctx<CallCtx>>) -> Result<Ve
             13 => pkg2.get_function(n).map(Fx::CS).map_err(|e| e.to_string()),
             0 | 5 | 7 | 8 | 9 => pkg.get_function(n).map(Fx::U).map_err(|e| e.to_string()),
             3 | 4 | 6 => pkg.get_function(n).map(Fx::TU).map_err(|e| e.to_string()),
-            1 | 11 => pkg.get_function(n).map(Fx::S).map_err(|e| e.to_string()),
+            1 | 11 | 14 => pkg.get_function(n).map(Fx::S).map_err(|e| e.to_string()),
             2 => pkg.get_function(n).map(Fx::O).map_err(|e| e.to_string()),
             _ => pkg.get_function(n).map(Fx::V).map_err(|e| e.to_string()),
         };
@@ -523,8 +531,11 @@ fn cold_thread(t: usize, variant: u64, x: u64) {
         sched::set_label("cold: runtime + compile + get_function matrix");
     }
     let rt = if variant == 0 { small_runtime() } else { lib_b_runtime() };
+    // `same` is declared by every thread under the same name but with a signature that depends
+    // on the variant: nothing process-wide may remember a signature check by function name
+    let same_sig = if variant == 0 { "fn same(x: u64) -> u64 { x + 1 }" } else { "fn same(x: u32) -> u32 { x + 2 }" };
     let src = format!(
-        "fn f{t}(x: u64) -> u64 {{ x + {t} }}\nfn g{t}(v: Tr, x: u64) -> u64 {{ val(v) + x }}\nfn h{t}(a: String, b: bool) -> String? {{ if b {{ Some(a) }} else {{ None }} }}\nfn l{t}(l: List[u64]) -> u64 {{ l.len() }}\nfn i{t}(x: i32) -> i32 {{ x }}\n"
+        "fn f{t}(x: u64) -> u64 {{ x + {t} }}\nfn g{t}(v: Tr, x: u64) -> u64 {{ val(v) + x }}\nfn h{t}(a: String, b: bool) -> String? {{ if b {{ Some(a) }} else {{ None }} }}\nfn l{t}(l: List[u64]) -> u64 {{ l.len() }}\nfn i{t}(x: i32) -> i32 {{ x }}\n{same_sig}\n"
     );
     let pkg = {
         let _cg = alloc::ModeGuard::new(alloc::MODE_COMPILE);
@@ -576,6 +587,8 @@ fn cold_thread(t: usize, variant: u64, x: u64) {
     check(&l, "fn(List<List<u64>>) -> u64", false, pkg.get_function::<fn(List<List<u64>>) -> u64>(&l).map(|_| None).map_err(|e| e.to_string()), None);
     check(&i, "fn(i32) -> i32", true, pkg.get_function::<fn(i32) -> i32>(&i).map(|k| Some(k.call(-5) as i64 as u64)).map_err(|e| e.to_string()), Some(-5i64 as u64));
     check(&i, "fn(u32) -> i32", false, pkg.get_function::<fn(u32) -> i32>(&i).map(|_| None).map_err(|e| e.to_string()), None);
+    check("same", "fn(u64) -> u64", variant == 0, pkg.get_function::<fn(u64) -> u64>("same").map(|k| Some(k.call(x))).map_err(|e| e.to_string()), Some(x + 1));
+    check("same", "fn(u32) -> u32", variant != 0, pkg.get_function::<fn(u32) -> u32>("same").map(|k| Some(k.call(7) as u64)).map_err(|e| e.to_string()), Some(9));
     check("nope", "fn(u64) -> u64", false, pkg.get_function::<fn(u64) -> u64>("nope").map(|_| None).map_err(|e| e.to_string()), None);
     let _ = take_hostlog();
     drop(pkg);
